@@ -32,8 +32,12 @@ class _Warned(logging.Handler):
     def emit(self, record):
         self.msgs.append(record.getMessage())
 
+VALUES_B = {"alpha": -2.0, "beta": 4.5, "gamma": 1.0, "delta": 0.5}
+
 def run(case):
-    """case: (tree, [sources], start, dt) -> None | text"""
+    """case: (tree, [sources], start, dt[, 'modules']) -> None | text"""
+    if len(case) == 5 and case[4] == "modules":
+        return run_modules(case)
     tree, sources, start, dt = case
     variables = [dict(kind="aux", name=DEFINED[n], eqn=repr(v)) for n, v in VALUES.items()]
     for i, src in enumerate(sources):
@@ -69,6 +73,45 @@ def run(case):
         root.removeHandler(h)
         if c is not None:
             c.cleanup()
+
+def run_modules(case):
+    """the same equation texts in two modules over module-local variables with different values: each module's
+    equations must be computed from its own variables"""
+    tree, sources, start, dt, _ = case
+    mods = {}
+    for mname, vals in (("Plant A", VALUES), ("Plant B", VALUES_B)):
+        vs = [dict(kind="aux", name=DEFINED[n], eqn=repr(v)) for n, v in vals.items()]
+        for i, src in enumerate(sources):
+            vs.append(dict(kind="aux", name="Result %d" % i, eqn=src))
+        mods[mname] = vs
+    c = None
+    try:
+        try:
+            c = Compiled(xmile("m", start, start + 4 * dt, dt, [dict(kind="aux", name="total", eqn="Plant_A.Result_0 + Plant_B.Result_0")], modules=mods))
+            sim = c.model()
+        except BaseException:
+            return None
+        for t in (start, start + dt):
+            for mname, pre, vals in (("Plant A", "plantA", VALUES), ("Plant B", "plantB", VALUES_B)):
+                env = dict(vals, TIME=t, DT=dt, STARTTIME=start)
+                try:
+                    want = T.eval_num(tree, env)
+                    if isinstance(want, complex) or want != want or abs(want) == float("inf"):
+                        continue
+                except (ZeroDivisionError, ValueError, OverflowError, TypeError):
+                    continue
+                for i, src in enumerate(sources):
+                    try:
+                        got = float(sim.equation("%s.result%d" % (pre, i), t))
+                    except BaseException:
+                        continue
+                    if got != got or abs(got - want) > 1e-9 * max(1.0, abs(want)):
+                        return ("module %r: XMILE equation %r evaluates to %r at t=%r, with the module's own variables %r the XMILE value is %r (the other module holds %r)"
+                                % (mname, src, got, t, vals, want, VALUES_B if vals is VALUES else VALUES))
+        return None
+    finally:
+        if c is not None:
+            c.cleanup()
 '''
 sys.path.insert(0, os.environ.get('VERIF_REPO', '/repo'))
 logging.getLogger().setLevel(logging.WARNING)
@@ -101,6 +144,8 @@ def main():
         pass
     # the always-present probe of the known finding, then the search
     todo.append((['bin', '+', ['var', 'alpha'], ['num', 1.0]], ['Alpha_Rate + NOSUCHFUNCTION(1)'], 0, 1))
+    mt = ['bin', '-', ['bin', '*', ['var', 'alpha'], ['var', 'beta']], ['if', ['cmp', '>', ['var', 'gamma'], ['var', 'delta']], ['var', 'delta'], ['call', 'MAX', [['var', 'alpha'], ['var', 'gamma']]]]]
+    todo.append((mt, [T.show(mt, dict(ident=REFS['asdefined']))], 0, 1, 'modules'))
     seen = set()
     while time.time() < t_end:
         if todo:
@@ -109,6 +154,8 @@ def main():
             batch = []
             tree = T.random_tree(rnd, rnd.choice([1, 2, 3, 3, 4]))
             case = (tree, spell(tree, rnd), rnd.choice([0, 1, 2.5]), rnd.choice([1, 0.5, 0.25]))
+            if rnd.random() < 0.2:
+                case = (tree, [T.show(tree, dict(ident=REFS['asdefined']))], case[2], case[3], 'modules')
         n += 1
         try:
             bad = run(case)
